@@ -37,57 +37,94 @@ def drawdowns(ctx):
     ret = p.value
     # ---- the running maximum
     hwm = None
-    recs = []
-    for e, loops, conds in nested_events(p):
-        if e.kind == 'write' and e.how == 'assign' and e.loc[0] == 'sub' and loops and not e.d.get('local'):
-            lp = loops[-1][0]
-            i = ('elem', lp.iter, lp.id)
-            v = e.value
-            if e.loc[2] == i and v[0] == 'call' and v[1] == ('ext', 'MAX') and len(v[2]) == 2:
-                arr = e.loc[1]
-                prev = ('sub', arr, T.t_sub(i, num(1)))
-                obs = [a for a in v[2] if a != prev]
-                if prev in v[2] and len(obs) == 1:
-                    recs.append((e, lp, arr, obs[0], i))
-    cum = [s for s in T.subterms(ret) if (s[0] == 'call' and s[1] in (('meth', 'cummax'), ('ext', 'numpy.maximum.accumulate'), ('ext', 'MAX.accumulate')))]
-    if recs:
-        e, lp, arr, obs, i = recs[0]
-        ctx.require(len(recs) == 1, 'C17.S1', 'one running-maximum recurrence', e.site, len(recs), key='C17.S1|one-recurrence')
-        ok_obs = obs in (('sub', ('attr', x, 'iloc'), i), ('sub', x, i), ('sub', ('attr', x, 'values'), i))
-        ctx.require(ok_obs, 'C17.S1', 'the running maximum absorbs the observation of the same date', e.site, fmt(obs), key='C17.S1|observation')
-        it = lp.iter
-        lo = it[2][0] if it[0] == 'call' and it[1] == ('ext', 'RANGE') and len(it[2]) == 2 else (ZERO if it[0] == 'call' and it[1] == ('ext', 'RANGE') and len(it[2]) == 1 else None)
-        hi = it[2][-1] if it[0] == 'call' and it[1] == ('ext', 'RANGE') else None
-        ctx.require(lo is not None and hi in (C('LEN', ('attr', x, 'index')), C('LEN', x), C('LEN', arr)), 'C17.S1', 'the recurrence runs to the last observation', lp.site,
-                    fmt(it), key='C17.S1|range')
-        if lo == num(1):
-            base = [w for w in heap_writes(p, into_loops=False) if w.loc == ('sub', arr, ZERO)]
-            okb = len(base) == 1 and base[0].value in (('sub', ('attr', x, 'iloc'), ZERO), ('sub', x, ZERO), ('sub', ('attr', x, 'values'), ZERO))
-            # the base write must precede the loop
-            if okb:
-                evs = list(p.events)
-                okb = evs.index(base[0]) < evs.index(lp)
-            ctx.require(okb, 'C17.S1', 'R-RECUR-BASE: the running maximum includes the first observation (hwm[0] is seeded from the data before the loop)', lp.site,
-                        'recurrence over range(1, n) with base element %s' % ([fmt(w.value) for w in base] or 'never assigned (stays 0)'), key='C17.S1|base')
-        elif lo is not None:
-            ctx.undecided('C17.S1', 'recurrence lower bound is the tabled one (1 with a seeded base)', lp.site, fmt(it))
-        hwm = arr
-    elif cum:
+    obs_forms = lambda i: (('sub', ('attr', x, 'iloc'), i), ('sub', x, i), ('sub', ('attr', x, 'values'), i))
+    first_forms = obs_forms(ZERO)
+    recognised = False
+    for lp in [e for e in p.events if e.kind == 'loop' and e.is_for]:
+        i = ('elem', lp.iter, lp.id)
+        arr_writes = {}
+        for b in lp.paths:
+            for e in b.flat_events(False):
+                if e.kind == 'write' and e.how == 'assign' and e.loc[0] == 'sub' and e.loc[2] == i and not e.d.get('local'):
+                    arr_writes.setdefault(e.loc[1], []).append((b, e))
+        for arr, wl in arr_writes.items():
+            prev = ('sub', arr, T.t_sub(i, num(1)))
+            carried = [n for n in lp.d.get('carried', [])]
+            lcs = [('lc', n, lp.id) for n in carried]
+            kinds = []
+            for b, e in wl:
+                v = e.value
+                if v[0] == 'call' and v[1] == ('ext', 'MAX') and len(v[2]) == 2 and (prev in v[2] or any(l in v[2] for l in lcs)):
+                    other = [a for a in v[2] if a != prev and a not in lcs]
+                    carrier = prev if prev in v[2] else [l for l in lcs if l in v[2]][0]
+                    kinds.append(('max', carrier, other[0] if other else None, b, e))
+                elif v in lcs:
+                    kinds.append(('keep', v, None, b, e))
+                elif v in obs_forms(i):
+                    kinds.append(('take', None, v, b, e))
+            if not kinds or len(kinds) != len(wl):
+                continue
+            carriers = {k[1] for k in kinds if k[1] is not None}
+            obs = {k[2] for k in kinds if k[2] is not None}
+            if len(carriers) != 1 or len(obs) != 1:
+                continue
+            carrier, ob = carriers.pop(), obs.pop()
+            recognised = True
+            hwm = arr
+            ctx.require(ob in obs_forms(i), 'C17.S1', 'the running maximum absorbs the observation of the same date', wl[0][1].site, fmt(ob), key='C17.S1|observation')
+            # branch form: take the observation exactly when it exceeds the running maximum
+            for k in kinds:
+                if k[0] in ('keep', 'take'):
+                    rel = None
+                    for c, vv, _ in k[3].conds:
+                        if c[0] == 'cmp' and c[1] in ('<', '<=') and {c[2], c[3]} == {carrier, ob}:
+                            bigger_obs = (c[2] == carrier)          # carrier < obs  /  carrier <= obs
+                            rel = vv if bigger_obs else not vv      # True: observation is the larger one (up to ties)
+                    okb = rel is not None and ((k[0] == 'take') == rel)
+                    ctx.require(okb, 'C17.S1', 'the running maximum is replaced exactly when the new observation is larger', k[4].site, cond_str(k[3])[:120], key='C17.S1|branch')
+            it = lp.iter
+            lo = it[2][0] if it[0] == 'call' and it[1] == ('ext', 'RANGE') and len(it[2]) == 2 else (ZERO if it[0] == 'call' and it[1] == ('ext', 'RANGE') and len(it[2]) == 1 else None)
+            hi = it[2][-1] if it[0] == 'call' and it[1] == ('ext', 'RANGE') else None
+            ctx.require(lo is not None and hi in (C('LEN', ('attr', x, 'index')), C('LEN', x), C('LEN', arr)), 'C17.S1', 'the recurrence runs to the last observation', lp.site,
+                        fmt(it), key='C17.S1|range')
+            if lo == num(1):
+                base = [w for w in heap_writes(p, into_loops=False) if w.loc == ('sub', arr, ZERO)]
+                okb = len(base) == 1 and base[0].value in first_forms
+                if okb:
+                    evs = list(p.events)
+                    okb = evs.index(base[0]) < evs.index(lp)
+                if okb and carrier[0] == 'lc':
+                    okb = lp.d.get('pre_env', {}).get(carrier[1]) in first_forms
+                ctx.require(okb, 'C17.S1', 'R-RECUR-BASE: the running maximum includes the first observation (seeded from the data before the loop)', lp.site,
+                            'recurrence over range(1, n) with base element %s' % ([fmt(w.value) for w in base] or 'never assigned (stays 0)'), key='C17.S1|base')
+            elif lo is not None:
+                ctx.undecided('C17.S1', 'recurrence lower bound is the tabled one (1 with a seeded base)', lp.site, fmt(it))
+    cum = [s_ for s_ in T.subterms(ret) if (s_[0] == 'call' and s_[1] in (('meth', 'cummax'), ('ext', 'numpy.maximum.accumulate'), ('ext', 'MAX.accumulate')))]
+    if not recognised and cum:
         hwm = cum[0]
+        recognised = True
         ctx.holds('C17.S1', 'running maximum by a cumulative-maximum primitive (includes the first observation)', fn.site())
-    else:
+    if not recognised:
         ctx.undecided('C17.S1', 'the high-water mark is a tabled running-maximum idiom', fn.site(), fmt(ret)[:200])
-        return
     # ---- drawdown = (hwm - x) / hwm  ( = 1 - x / hwm )
     if not (ret[0] == 'tuple' and len(ret[1]) == 3):
         ctx.undecided('C17.S2', 'create_drawdowns returns (series, maximum, duration)', fn.site(), fmt(ret)[:120])
         return
     dd, mx, dur = ret[1]
+    if hwm is None:
+        # unrecognised running maximum: still check the shape (H - x) / H for the denominator H the code uses
+        try:
+            r_ = T.rat(dd)
+            hwm = T.unrat(T.R(r_.d))
+        except Exception:
+            hwm = x
     exp = T.t_div(T.t_sub(hwm, x), hwm)
     ctx.require(T.teq(dd, exp), 'C17.S2', 'drawdown = (running maximum - value) / running maximum', fn.site(), fmt(dd)[:200], key='C17.S2|drawdown')
     ctx.require(mx in (C('MAX', dd), M_('max', dd)), 'C17.S2', 'maximum drawdown = max of the drawdown series', fn.site(), fmt(mx)[:160], key='C17.S2|max')
     # duration: longest run of the non-zero indicator of the drawdown series
     ind = [s for s in T.subterms(dur) if s[0] == 'call' and s[1] == ('ext', 'WHERE')]
+    if not ind:
+        ind = [w.value for w in heap_writes(p, into_loops=False) if w.value is not None and w.value[0] == 'call' and w.value[1] == ('ext', 'WHERE')]
     okd = False
     if len(ind) >= 1:
         w = ind[0]
@@ -96,8 +133,11 @@ def drawdowns(ctx):
         okd = okd or (len(w[2]) == 3 and cond in (('not', ('cmp', '==', ZERO, dd)), ('not', ('cmp', '<=', dd, ZERO)), ('cmp', '<', ZERO, dd)) and w[2][1] == num(1) and w[2][2] == ZERO)
     ctx.require(okd, 'C17.S2', 'the under-water indicator is "drawdown != 0" of that same series', fn.site(), fmt(ind[0])[:200] if ind else fmt(dur)[:200], key='C17.S2|indicator')
     grp = [s for s in T.subterms(dur) if s[0] == 'call' and s[1] == ('ext', 'itertools.groupby')]
-    okg = dur[0] == 'call' and dur[1] == ('ext', 'MAX') and len(grp) == 1 and ind and grp[0][2] == (ind[0],)
-    ctx.require(okg, 'C17.S2', 'duration = the longest consecutive run of the indicator (max over groupby runs)', fn.site(), fmt(dur)[:200], key='C17.S2|duration')
+    if grp or (dur[0] == 'call' and dur[1] == ('ext', 'MAX')):
+        okg = dur[0] == 'call' and dur[1] == ('ext', 'MAX') and len(grp) == 1 and ind and grp[0][2] == (ind[0],)
+        ctx.require(okg, 'C17.S2', 'duration = the longest consecutive run of the indicator (max over groupby runs)', fn.site(), fmt(dur)[:200], key='C17.S2|duration')
+    else:
+        ctx.undecided('C17.S2', 'the run-length computation of the duration is a tabled idiom', fn.site(), fmt(dur)[:120])
     ctx.sample({'rule': 'C17.S1/S2', 'drawdown': fmt(dd)[:120], 'duration': fmt(dur)[:160]})
 
 
@@ -215,6 +255,10 @@ def reporters(ctx):
             if cur[2][1][0] == 'str':
                 got.setdefault(cur[2][1][1], cur[2][2])
             cur = cur[2][0]
+        if cur[0] == 'dict':
+            for kk, vv in cur[1]:
+                if kk is not None and kk[0] == 'str':
+                    got.setdefault(kk[1], vv)
         for k, t in want.items():
             hv = p.heap.get(t, t)
             ctx.require(got.get(k) in (t, hv), 'C17.S4', "tearsheet results['%s'] is that series" % k, fn.site(), fmt(got.get(k, ZERO))[:80], key='C17.S4|results|%s' % k)
@@ -265,18 +309,18 @@ def aggregation(ctx):
     ok = len(ps) == 1 and ps[0].outcome == 'return' and any(T.teq(ps[0].value, e) for e in (exp, alt, alt2))
     ctx.require(ok, 'C17.S5', 'a period compounds its returns: exp(sum(log(1 + r))) - 1', cum.site(), [fmt(p.value) if p.value else p.outcome for p in ps], key='C17.S5|compound')
     ps = summarise(ctx, qn, policy=default_policy)
-    seen = {}
+    keysets = []
     for p in ps:
-        if p.outcome != 'return':
+        if p.outcome != 'return' or p.value in (None, T.NONE):
             continue
-        which = [c[2][1] if c[2][0] == 'str' else c[3][1] for c, v, _ in p.conds if v and c[0] == 'cmp' and c[1] == '==' and (c[2][0] == 'str' or c[3][0] == 'str')]
         v = p.value
         ok = v[0] == 'call' and v[1] == ('meth', 'apply') and len(v[2]) == 2 and v[2][1] == ('localfn', 'cumulate_returns', fn.qn) and \
             v[2][0][0] == 'call' and v[2][0][1] == ('meth', 'groupby') and v[2][0][2][0] == V('returns')
-        seen[which[0] if which else '?'] = ok
-        ctx.require(ok, 'C17.S5', "the '%s' aggregate applies the same compounding to a groupby partition of the returns" % (which[0] if which else '?'), fn.site(), fmt(v)[:160],
-                    key='C17.S5|branch|%s' % (which[0] if which else '?'))
-    ctx.require(set(seen) >= {'weekly', 'monthly', 'yearly'}, 'C17.S5', 'weekly, monthly and yearly aggregation exist', fn.site(), sorted(seen), key='C17.S5|branches')
+        ctx.require(ok, 'C17.S5', 'every aggregate applies the same compounding to a groupby partition of the returns [%s]' % cond_str(p)[:60], fn.site(), fmt(v)[:160],
+                    key='C17.S5|branch')
+        if ok:
+            keysets.append(fmt(v[2][0][2][1]) if len(v[2][0][2]) > 1 else '?')
+    ctx.require(len(set(keysets)) >= 3, 'C17.S5', 'weekly, monthly and yearly aggregation exist (three distinct partitions)', fn.site(), sorted(set(keysets)), key='C17.S5|branches')
     for n in ast.walk(fn.node):
         if isinstance(n, ast.Expr) and isinstance(n.value, ast.Call) and isinstance(n.value.func, ast.Name) and n.value.func.id.endswith('Error'):
             ctx.note('R-UNRAISED: %s builds %s without raising it (an unknown frequency returns None); outside the property statement' % (fn.site(n), n.value.func.id))
